@@ -49,7 +49,9 @@ def cases(draw, max_leaves):
     return {"spec": sl["spec"], "lenpat": sl["lenpat"], "rooted": draw(st.sampled_from([True, False, None])), "op": op,
             "target": draw(st.integers(0, 200)), "frac": draw(st.integers(0, 8)),
             "ub": draw(st.booleans()), "su": draw(st.booleans()), "cb": draw(st.booleans()),
-            "asc": draw(st.booleans()), "seed": draw(st.integers(0, 2 ** 31)), "encode_first": draw(st.booleans())}
+            "asc": draw(st.booleans()), "seed": draw(st.integers(0, 2 ** 31)), "encode_first": draw(st.booleans()),
+            # a tree may carry a length on the edge subtending its seed ("(...):0.5;"): it belongs to the total length
+            "root_len": draw(st.sampled_from([None, None, None, 0.5, 2.0, 0.0]))}
 
 
 @st.composite
@@ -76,6 +78,9 @@ def check_case(ctx, case):
     n = before.n_leaves()
     ns, taxa, bits = shapes.build_namespace(shapes.plain_history(n))
     tree = shapes.build_tree(spec, ns, taxa, is_rooted=case["rooted"])
+    if case.get("root_len") is not None:
+        tree.seed_node.edge.length = case["root_len"]
+        ctx.cls("seed_edge_has_length")
     pre, problems = snapshot(tree)
     if problems:
         raise runner.HarnessError("built tree not well formed: %r" % problems)
